@@ -5,7 +5,9 @@ _axisangle_to_matrix (cos/sin of the angle become two ring variables, F.normaliz
 Subset: single assignments of + - * / unary minus / integer literals / .square() / name[i] / name[:3] /
 torch.linalg.cross(a, b); tuple unpacking of x.unbind(-1) and of (torch.cos(angle), torch.sin(angle)); a final
 torch.stack of 4 or 9 expressions (with *(...) splats), optionally .reshape(..., 3, 3) or einops.rearrange(..., row=3)
-(row-major).  Everything else raises Unsupported for that function only (gen_available_<fn> := false).
+(row-major).  _quaternion_to_euler: the a, b, c, d of the two branches of `if symmetric:` as ring expressions, plus a textual pin
+(ast.unparse) of the angle formulas (atan2 / hypot, half sum / difference, permutation sign, gimbal test) that Model/Euler.v mirrors.
+Everything else raises Unsupported for that function only (gen_available_<fn> := false).
 """
 import ast
 import os
@@ -211,6 +213,53 @@ SPECS = {
 }
 
 
+EULER_PINS = {   # statements of _quaternion_to_euler that the R model (Model/Euler.v quaternion_to_euler) mirrors one to one
+    'angles_1': '2 * torch.atan2(torch.hypot(c, d), torch.hypot(a, b))',
+    'half_sum': 'torch.atan2(b, a)',
+    'half_diff': 'torch.atan2(d, c)',
+    'angles_0': 'half_sum - half_diff',
+    'angles_2': 'half_sum + half_diff',
+    'sign': '(q - r) * (r - s) * (s - q) // 2',
+    'case': '1 * (torch.abs(angles_1) <= 1e-07) + 2 * (torch.abs(angles_1 - torch.pi) <= 1e-07)',
+}
+
+
+def translate_euler(fn):
+    """a, b, c, d of both branches of `if symmetric:` as ring expressions of (cw, cq, cr, cs, sg); the angle formulas are pinned textually"""
+    first = {}
+    for node in ast.walk(fn):
+        if isinstance(node, ast.Assign) and len(node.targets) == 1 and isinstance(node.targets[0], ast.Name):
+            first.setdefault(node.targets[0].id, ast.unparse(node.value))
+    for name, want in EULER_PINS.items():
+        if first.get(name) != want:
+            raise Unsupported(f'{name} = {first.get(name)!r}, the model mirrors {want!r}')
+    ifs = [n for n in fn.body if isinstance(n, ast.If) and isinstance(n.test, ast.Name) and n.test.id == 'symmetric']
+    if len(ifs) != 1:
+        raise Unsupported('`if symmetric:` with the definitions of a, b, c, d not found')
+
+    def comp(e):
+        if isinstance(e, ast.Subscript) and isinstance(e.value, ast.Name) and e.value.id == 'quaternion' and isinstance(e.slice, ast.Tuple) \
+                and len(e.slice.elts) == 2 and isinstance(e.slice.elts[0], ast.Constant) and e.slice.elts[0].value is Ellipsis \
+                and isinstance(e.slice.elts[1], ast.Name) and e.slice.elts[1].id in 'wqrs':
+            return 'c' + e.slice.elts[1].id
+        if isinstance(e, ast.Name) and e.id == 'sign':
+            return 'sg'
+        if isinstance(e, ast.BinOp) and isinstance(e.op, (ast.Add, ast.Sub, ast.Mult)):
+            return '(' + {ast.Add: 'kadd', ast.Sub: 'ksub', ast.Mult: 'kmul'}[type(e.op)] + f' {comp(e.left)} {comp(e.right)})'
+        raise Unsupported(f'expression in a/b/c/d: {ast.unparse(e)}')
+
+    def branch(stmts):
+        got = {}
+        for st in stmts:
+            if not (isinstance(st, ast.Assign) and len(st.targets) == 1 and isinstance(st.targets[0], ast.Name)):
+                raise Unsupported('unexpected statement in the a/b/c/d branch')
+            got[st.targets[0].id] = comp(st.value)
+        if sorted(got) != ['a', 'b', 'c', 'd']:
+            raise Unsupported(f'branch defines {sorted(got)}')
+        return f'({got["a"]}, {got["b"]}, {got["c"]}, {got["d"]})'
+    return branch(ifs[0].body), branch(ifs[0].orelse)
+
+
 def translate():
     tree = ast.parse(SRC.read_text())
     fns = {n.name: n for n in tree.body if isinstance(n, ast.FunctionDef)}
@@ -230,6 +279,19 @@ def translate():
         except (Unsupported, KeyError, AttributeError, TypeError) as e:
             parts.append(f'  (* translator failed closed for {name}: {str(e)[:200]} *)\n  Definition gen_available{name} := false.')
             avail[name] = (False, str(e)[:200])
+    name = '_quaternion_to_euler'
+    try:
+        sym, asym = translate_euler(fns[name])
+        parts.append(f'''  Definition gen_available{name} := true.
+  Definition gen_euler_abcd_sym (cw cq cr cs sg : R) : R * R * R * R := {sym}.
+  Definition gen_euler_abcd_asym (cw cq cr cs sg : R) : R * R * R * R := {asym}.
+  Lemma gen_quaternion_to_euler_ok : forall cw cq cr cs sg,
+    gen_euler_abcd_sym cw cq cr cs sg = abcd_sym R cw cq cr cs sg /\\ gen_euler_abcd_asym cw cq cr cs sg = abcd_asym R cw cq cr cs sg.
+  Proof. intros. unfold gen_euler_abcd_sym, gen_euler_abcd_asym, abcd_sym, abcd_asym. split; pair_split; ring. Qed.''')
+        avail[name] = (True, '')
+    except (Unsupported, KeyError, AttributeError, TypeError) as e:
+        parts.append(f'  (* translator failed closed for {name}: {str(e)[:300]} *)\n  Definition gen_available{name} := false.')
+        avail[name] = (False, str(e)[:300])
     txt = f'''(* GENERATED on every run by harness/translate/rotation.py from {SRC} -- do not edit *)
 From MrVerif Require Import Base.Prelude Base.StarRing Model.Rotation Proofs.RotationProofs.
 Section Gen.
@@ -244,6 +306,6 @@ def write(out: Path):
         txt, avail = translate()
     except (SyntaxError, OSError) as e:
         txt = f'(* GENERATED: translator failed closed: {e} *)\n'
-        avail = {n: (False, str(e)[:200]) for n in SPECS}
+        avail = {n: (False, str(e)[:200]) for n in list(SPECS) + ['_quaternion_to_euler']}
     out.write_text(txt)
     return avail
